@@ -603,6 +603,20 @@ impl Prop for C01 {
 // ---------------------------------------------------------------------------------------------
 
 fn gen_impostor(seed: u64, rng: &mut Rng) -> Value {
+    let mut case = gen_impostor_tcp(seed, rng);
+    // a third of the impostor runs use the WebSocket transport (its own connection negotiation
+    // and dialed-peer comparison); independent stream of the seed
+    let mut r = Rng::fork(seed, "c01-impostor-ws");
+    if r.chance(1, 3) {
+        case["node_knobs"]["transport"] = json!("ws");
+        if case["net"]["max_chunk"].as_u64().unwrap_or(4096) < 64 {
+            case["net"]["max_chunk"] = json!(64);
+        }
+    }
+    case
+}
+
+fn gen_impostor_tcp(seed: u64, rng: &mut Rng) -> Value {
     let v_alive = rng.chance(1, 2);
     json!({
         "property": "C01",
@@ -642,13 +656,15 @@ fn run_impostor(case: Value, verbose: bool) -> RunOutput {
         let rounds = case["rounds"].as_u64().unwrap_or(1).clamp(1, 3);
         // node 1 = T (dials), node 2 = R (the impostor's address), node 3 = V (identity dialed)
         let log: Arc<Mutex<Vec<(usize, u64, Ev)>>> = Arc::new(Mutex::new(Vec::new()));
-        let impostor_addr = with_p2p(listen_addr(2), peer_id(seed, 3));
+        let ws = case["node_knobs"]["transport"] == "ws";
+        let la = |i: usize| if ws { node::ws_listen_addr(i) } else { listen_addr(i) };
+        let impostor_addr = with_p2p(la(2), peer_id(seed, 3));
         let mut stored = vec![impostor_addr.clone()];
         if v_known {
-            stored.push(with_p2p(listen_addr(3), peer_id(seed, 3)));
+            stored.push(with_p2p(la(3), peer_id(seed, 3)));
         }
         for k in 0..case["dead_addrs"].as_u64().unwrap_or(0).min(3) {
-            stored.push(with_p2p(format!("/ip4/10.0.0.3/tcp/{}", 2 + k).parse().unwrap(), peer_id(seed, 3)));
+            stored.push(with_p2p(format!("/ip4/10.0.0.3/tcp/{}{}", 2 + k, if ws { "/ws" } else { "" }).parse().unwrap(), peer_id(seed, 3)));
         }
         if !case["impostor_first"].as_bool().unwrap_or(true) {
             stored.reverse();
